@@ -138,6 +138,7 @@ def mutants(prog):
         ("float() alias then inplace", "deepali.core.flow", "normalize_flow", "data.mul(", "data.float().mul_(", "E1.pure"),
         ("image accessor mutates", "deepali.data.image", "ImageBatch.normalize", "U.normalize_image(self, ", "U.normalize_image(self, inplace=True, ", "E1.accessor"),
         ("svf inverse: buffer registered on the original", "deepali.spatial.nonrigid", "StationaryVelocityFieldTransform.inverse", "inv.register_buffer('u', u, persistent=False)", "self.register_buffer('u', u, persistent=False)", "T15.transform-accessor"),
+        ("pyramid: in-place flag setter on the image's own grids", "deepali.data.image", "ImageBatch.pyramid", "grids = tuple((grid.align_corners(align_corners) for grid in self._grid))", "grids = tuple((grid.align_corners_(align_corners) for grid in self._grid))", "T15.accessor"),
     ]
     for name, mod, fn, old, new, expect in specs:
         ov = source_sub(prog, mod, fn, old, new)
